@@ -10,41 +10,70 @@ namespace Kapture.C17
 /-- whatever the server does, an install call extracts at most one archive, and only one whose checksum matches -/
 theorem extract_implies_sha (srv : Server) (good : Bytes → Bool) (force noClean : Bool) (w : World) :
     (install srv good force noClean w).1.extracted = w.extracted ∨
-    ∃ b, good b = true ∧ (install srv good force noClean w).1.extracted = w.extracted ++ [b] := by sorry
+    ∃ b, good b = true ∧ (install srv good force noClean w).1.extracted = w.extracted ++ [b] := by
+  rcases install_spec srv good force noClean w with ⟨_, _, _, he⟩ | ⟨_, _, he⟩ | ⟨_, _, _, he⟩
+  · exact Or.inl he
+  · exact Or.inl he
+  · exact Or.inr he
 
 /-- the dataset is marked installed afterwards only if this call extracted a verified archive,
   or it was already marked and force was not given -/
 theorem marked_implies (srv : Server) (good : Bytes → Bool) (force noClean : Bool) (w : World)
     (h : (install srv good force noClean w).1.installed = true) :
     (∃ b, good b = true ∧ (install srv good force noClean w).1.extracted = w.extracted ++ [b]) ∨
-    (w.installed = true ∧ force = false ∧ (install srv good force noClean w).1.extracted = w.extracted) := by sorry
+    (w.installed = true ∧ force = false ∧ (install srv good force noClean w).1.extracted = w.extracted) := by
+  rcases install_spec srv good force noClean w with ⟨_, ⟨hw, hf⟩, _, he⟩ | ⟨_, hi, _⟩ | ⟨_, _, _, he⟩
+  · exact Or.inr ⟨hw, hf, he⟩
+  · rw [hi] at h; cases h
+  · exact Or.inl he
 
 /-- any other outcome (a reported status other than installed, or an exception) leaves nothing extracted and nothing marked -/
 theorem failure_leaves_nothing (srv : Server) (good : Bytes → Bool) (force noClean : Bool) (w : World)
     (h : (install srv good force noClean w).2 ≠ Except.ok Status.installed) :
     (install srv good force noClean w).1.extracted = w.extracted ∧
-    (install srv good force noClean w).1.installed = false := by sorry
+    (install srv good force noClean w).1.installed = false := by
+  rcases install_spec srv good force noClean w with ⟨hr, _⟩ | ⟨_, hi, he⟩ | ⟨hr, _⟩
+  · exact absurd hr h
+  · exact ⟨he, hi⟩
+  · exact absurd hr h
 
 /-- a reported success that was not a mere "already installed" did extract a verified archive -/
 theorem success_means_verified (srv : Server) (good : Bytes → Bool) (force noClean : Bool) (w : World)
     (h : (install srv good force noClean w).2 = Except.ok Status.installed) (hn : w.installed = false ∨ force = true) :
     ∃ b, good b = true ∧ (install srv good force noClean w).1.extracted = w.extracted ++ [b] ∧
-      (install srv good force noClean w).1.installed = true := by sorry
+      (install srv good force noClean w).1.installed = true := by
+  rcases install_spec srv good force noClean w with ⟨_, ⟨hw, hf⟩, _⟩ | ⟨hr, _⟩ | ⟨_, _, hi, b, hg, he⟩
+  · rcases hn with hn | hn
+    · rw [hw] at hn; cases hn
+    · rw [hf] at hn; cases hn
+  · exact absurd h hr
+  · exact ⟨b, hg, he, hi⟩
 
 /-- the status `downloaded` is only ever reported for a present archive whose checksum matches -/
 theorem downloaded_means_verified (srv : Server) (good : Bytes → Bool) (w : World)
     (h : (probStatus srv good w).2 = Except.ok Status.downloaded) :
-    ∃ b, (probStatus srv good w).1.archive = some b ∧ good b = true := by sorry
+    ∃ b, (probStatus srv good w).1.archive = some b ∧ good b = true := by
+  obtain ⟨a, ha, hg⟩ := probStatus_downloaded srv good w h
+  exact ⟨a, (probStatus_frame srv good w).1.trans ha, hg⟩
 
 /-- non-vacuity / liveness: against an honest server a fresh install succeeds and extracts exactly the content -/
 theorem honest_server_installs (content : Bytes) (good : Bytes → Bool) (hg : good content = true) (noClean : Bool)
     (w : World) (h0 : w.archive = none) (h1 : w.installed = false) :
     (install (honest content) good false noClean w).2 = Except.ok Status.installed ∧
-    (install (honest content) good false noClean w).1.extracted = w.extracted ++ [content] := by sorry
+    (install (honest content) good false noClean w).1.extracted = w.extracted ++ [content] := by
+  cases noClean <;>
+  simp [install, probStatus, download, downloadLoop, downloadFile, downloadResume, remoteSize, request, honest,
+    h0, h1, hg]
 
 /-- ... and a partial archive that is a prefix of the content is resumed to the full content -/
 theorem honest_server_resumes (content : Bytes) (good : Bytes → Bool) (hg : good content = true) (k : Nat)
     (hk : 0 < k) (hk2 : k < content.length) (w : World) (h0 : w.archive = some (content.take k)) (h1 : w.installed = false) :
-    (install (honest content) good false true w).1.extracted = w.extracted ++ [content] := by sorry
+    (install (honest content) good false true w).1.extracted = w.extracted ++ [content] := by
+  have hlen : (content.take k).length = k := by rw [List.length_take]; omega
+  have hne : content.length ≠ k := by omega
+  have hk0 : k ≠ 0 := by omega
+  have hnlt : ¬ content.length < k := by omega
+  simp [install, probStatus, download, downloadLoop, downloadFile, downloadResume, remoteSize, request, honest,
+    h0, h1, hg, hlen, hne, hk0, hk2, hnlt, List.take_append_drop]
 
 end Kapture.C17
